@@ -225,6 +225,15 @@ def run_case(case):
         chosen = points
     elif case["tier"] == "thorough":
         chosen = points[:200] + rng.sample(points[200:], 150) + [points[-1]]   # (long runs of the large models)
+    if case["tier"] == "thorough":
+        # work bound in logical units (tasks x steps per injected run), so that a large model does not run into the
+        # per-case wall-clock watchdog (which would make the whole tier inconclusive): DESIGN 5.3 #15
+        unit = max(1, len(spec["tasks"]) * (len(points) // 5 + int(spec["sim"].get("max_time", 50))))
+        cap = max(30, 1500000 // unit)
+        if len(chosen) > cap:
+            head = chosen[:cap // 3]
+            chosen = head + rng.sample(chosen[cap // 3:-1], cap - len(head) - 1) + [chosen[-1]]
+            res.count("C17.injection_points_capped_cases")
     else:
         chosen = rng.sample(points, min(8, len(points)))
         for sp in (points[0], points[-1]):
